@@ -52,6 +52,15 @@ structure Engine (E : Type) where
   dump : E → String                   -- dump_ostream with every entity selected
   fresh : E                           -- state after a successful LoadDatabase (incl. its test_db run)
   empty : E                           -- state after UnLoadDatabase
+  /-- the reader as the engine sees it: the classified lines of an input text.  `readLines` when no include directive is
+      followed; `linesFS fs d` with the file system the directives see. -/
+  lines : Bytes → List CLine := readLines
+
+/-- `read_input` over a whole text: its simulations -/
+def Engine.sims {E : Type} (eng : Engine E) (text : Bytes) : List (List CLine) := LineReader.sims (eng.lines text)
+
+/-- `a` can be cut off in front of any continuation: the simulations of `a ++ b` are those of `a` followed by those of `b` -/
+def Engine.boundary {E : Type} (eng : Engine E) (a : Bytes) : Prop := ∀ b, eng.sims (a ++ b) = eng.sims a ++ eng.sims b
 
 /-- the engine's results do not depend on the call-local fields, except that rows carry the simulation counter -/
 def Engine.CallLocalFree {E : Type} (eng : Engine E) : Prop :=
@@ -115,14 +124,14 @@ def loop (eng : Engine E) : Nat → Bool → E → List (List CLine) → Loop E
       ⟨l.engine, r.rows ++ l.rows, l.inputError, r.msgs + l.io, r.warns + l.warns, l.simulation, l.firstRead⟩
 
 /-- lines after the last END that hold no keyword: each draws the warning "Unknown input, no keyword has been specified." -/
-def trailingJunk (text : Bytes) : Nat :=
-  let o := openAfter [] (readLines text)
+def trailingJunk (eng : Engine E) (text : Bytes) : Nat :=
+  let o := openAfter [] (eng.lines text)
   if o.any CLine.isKey then 0 else o.length
 
 def W.doRun (eng : Engine E) (w : W E) (text : Bytes) : W E :=
-  let l := loop eng 1 true w.engine (simulations text)
+  let l := loop eng 1 true w.engine (eng.sims text)
   { w with engine := l.engine, tables := l.rows, inputError := l.inputError, ioErrors := l.io,
-           errReporter := w.errReporter + l.io, warnReporter := w.warnReporter + l.warns + trailingJunk text,
+           errReporter := w.errReporter + l.io, warnReporter := w.warnReporter + l.warns + trailingJunk eng text,
            simulation := l.simulation, firstRead := l.firstRead, updateComponents := true }
 
 /-! ### Run* -/
